@@ -233,6 +233,32 @@ def _law_aliased(job, ctx):
                 ctx.violation("C18|law-aliased|result", "the base tree %s holds one map object at two places; combine_trees(base, %s) = %s, expected %s" % (b0, child, got, want), case)
             if V.canon(base) != V.canon(b0):
                 ctx.violation("C18|law-aliased|base-mutated", "combine_trees mutated its first argument: %s -> %s" % (b0, base), case)
+    # maps as some readers deliver them: subclasses of dict (an ordered map written by another program comes back from the
+    # YAML and pickle readers as collections.OrderedDict); a map is a map
+    import collections
+
+    def od(t):
+        return collections.OrderedDict((k, od(v)) for k, v in t.items()) if isinstance(t, dict) else t
+    bases = [{"a": {"k": 1, "m": 2}, "b": 1}, {"a": {"x": {"k": 1, "m": 2}, "y": 3}}, {"b": {"c": {"k": 1}, "d": 2}, "a": 5}]
+    for bi, base in enumerate(bases):
+        for ci, child in enumerate(children):
+            for conv in ("base", "child", "both"):
+                ident = ["mapclass", bi, ci, conv]
+                if only is not None and only != ident:
+                    continue
+                b = od(base) if conv in ("base", "both") else copy.deepcopy(base)
+                c = od(child) if conv in ("child", "both") else copy.deepcopy(child)
+                want = ref_merge(copy.deepcopy(base), copy.deepcopy(child))
+                ctx.transitions += 1
+                ctx.case(("mapclass", bi, ci, conv), "law-mapclass:" + conv, True)
+                case = {"kind": "law-aliased", "jobparams_full": {k: v for k, v in job.items() if k not in ("single", "only")}, "only": ident, "job": job["name"]}
+                try:
+                    got = json.loads(json.dumps(cc.IncludeField().combine_trees(b, c)))
+                except Exception as exc:  # noqa
+                    ctx.violation("C18|law-mapclass|raises", "combine_trees on ordered maps raised %r" % (exc,), case)
+                    continue
+                if got != want:
+                    ctx.violation("C18|law-mapclass|result|" + conv, "with %s given as ordered maps, combine_trees(%s, %s) = %s, expected %s" % (conv, base, child, got, want), case)
     ctx.sample({"aliased_bases": len(_aliased_bases()), "children": len(children)})
 
 
@@ -612,8 +638,16 @@ def _paths(job, ctx):
     homeinc = os.path.join(core.home_dir(), "c18conf")
     os.makedirs(homeinc, exist_ok=True)
     _write(fmt, os.path.join(homeinc, "home.inc"), {"x": 7})
+    # on this platform a backslash is an ordinary character of a file name: `site\\x.inc` is a file in the start directory,
+    # not `x.inc` in a directory `site` (which exists too, with other content / without the second file)
+    os.makedirs(os.path.join(incdir, "site"), exist_ok=True)
+    _write(fmt, os.path.join(incdir, "site\\x.inc"), {"x": 8})
+    _write(fmt, os.path.join(incdir, "site", "x.inc"), {"x": 9})
+    _write(fmt, os.path.join(incdir, "site", "only-slash.inc"), {"x": 10})
     only = job.get("only")
     forms = [
+        ("backslash-in-name", incdir, "site\\x.inc", 8), ("backslash-in-name-absolute", None, os.path.join(incdir, "site\\x.inc"), 8),
+        ("backslash-name-missing", incdir, "site\\only-slash.inc", "raise"), ("slash-sibling", incdir, "site/x.inc", 9),
         ("relative-home-startdir", "~/c18conf", "home.inc", 7),
         ("missing-home-startdir", "~/c18conf", "ok.inc", "raise"),
         ("relative-startdir", incdir, "ok.inc", 5), ("absolute", incdir, os.path.join(incdir, "ok.inc"), 5),
